@@ -83,6 +83,22 @@ def stressed_variants(p, limit):
     return out
 
 
+def include_twice(p):
+    """(main text, files): the first run of unlabelled simple statements of the program goes into an include file that is included
+    where it stood and once more directly after (legal: the statements are then executed twice)."""
+    st = p["stmts"]
+    i = next((k for k, s in enumerate(st) if s["k"] == "s" and not s["label"] and st[k]["text"].split()[0] not in ("return", "stop", "exit", "cycle", "goto", "go")), None)
+    if i is None:
+        return None
+    j = i
+    while j + 1 < len(st) and st[j + 1]["k"] == "s" and not st[j + 1]["label"] and st[j + 1]["d"] == st[i]["d"]:
+        j += 1
+    lines = [render.stmt_line(s) for s in st]
+    inc = "  include 'twice.inc'"
+    main = lines[:i] + [inc, inc] + lines[j + 1:]
+    return "\n".join(main) + "\n", {"twice.inc": "\n".join(lines[i:j + 1]) + "\n"}
+
+
 def cases_for(prop, progs, tier="thorough"):
     cases = []
     quick = tier == "quick"
@@ -115,6 +131,13 @@ def cases_for(prop, progs, tier="thorough"):
             if quick:
                 cfgs = [cfgs[p["id"] % 3]]
             cases.append({"id": p["id"], "src": src2, "cfgs": cfgs, "want": WANT[prop], "variant": "comments"})
+        if prop in ("C18", "C10") and p["id"] % (6 if quick else 2) == 0:
+            # the same program read through FortranFileReader; and with a run of simple statements moved to a file INCLUDEd twice
+            cfg1 = [(stds[-1], bool(p["id"] % 4), False)]
+            cases.append({"id": p["id"], "src": p["src"], "cfgs": cfg1, "want": WANT[prop], "variant": "file-reader", "via": "file"})
+            inc = include_twice(p)
+            if inc:
+                cases.append({"id": p["id"], "src": inc[0], "cfgs": cfg1, "want": WANT[prop], "variant": "include-twice", "via": "include", "files": inc[1]})
     return cases
 
 
